@@ -123,7 +123,9 @@ def check_file(fname, base_text, got_text, regions, blocks, ren: Renaming, rep) 
             continue
         idx = [i for i, l in enumerate(base) if re.match(anchor, l)]
         if not idx:
-            raise Violation("anchor-missing", f"{fname}: structural anchor for {field} not found in the baseline", rep)
+            from vf.core import HarnessError
+
+            raise HarnessError(f"{fname}: structural anchor for {field} not found in the block-free rendering: the templates were restructured, re-derive the anchors in vf/props/C14.py")
         i = idx[0]
         points.append((i if side == "before" else i + 1, field, render))
     points.sort(key=lambda p: p[0])
